@@ -20,6 +20,8 @@ class Raised:
 
 def call(fn, *a, **k):
     """Call into the code under test; exceptions become values the oracle can judge."""
+    if any(type(x).__name__ == "Omitted" for x in a):  # gen.curved.Omitted: an optional argument the caller leaves out
+        a = tuple(x for x in a if type(x).__name__ != "Omitted")
     try:
         return fn(*a, **k)
     except Exception as e:  # noqa: BLE001
